@@ -333,6 +333,82 @@ pub(crate) fn run_schema(layout: u8, ops: &[Op], minlen: usize, maxlen: usize, p
     (qr, m.valid)
 }
 
+/// C12 (read side): the k-th seek/load of the source fails (k and the error kind symbolic). The public call in
+/// progress must return Err(Error::Io(kind)); calls before it behave as without a fault; never Ok for the faulted call;
+/// no Err without a fault; no panic.
+pub(crate) fn run_schema_faults(layout: u8, ops: &[Op], max_io: u32) -> (bool, u32) {
+    reset_tables();
+    let l = build_layout(layout, 1, 1);
+    let sym = any_probe(2);
+    let fail_at: u32 = kani::any();
+    kani::assume(fail_at >= 1 && fail_at <= max_io);
+    let kind: u8 = kani::any();
+    kani::assume(kind <= 3);
+    t().fail_at = fail_at;
+    t().fail_kind = kind;
+    let mut c = open(&l, FileVersion::FormatV2);
+    let mut m = Model { n: l.n, pos: None, valid: true };
+    let n = l.n;
+    let mut failed = false;
+    let mut i = 0;
+    while i < ops.len() {
+        if !failed {
+            let before = t().faulted;
+            let mut buf = [0u8; 3];
+            let (res, expect): (crate::Result<Option<(&[u8], &[u8])>>, Option<usize>) = match ops[i] {
+                Op::First => (c.move_on_first(), if n > 0 { Some(0) } else { None }),
+                Op::Last => (c.move_on_last(), if n > 0 { Some(n - 1) } else { None }),
+                Op::Next => (c.move_on_next(), match m.pos { None => if n > 0 { Some(0) } else { None }, Some(p) => if p + 1 < n { Some(p + 1) } else { None } }),
+                Op::Prev => (c.move_on_prev(), match m.pos { None => if n > 0 { Some(n - 1) } else { None }, Some(p) => if p > 0 { Some(p - 1) } else { None } }),
+                Op::Ge(sel) => {
+                    let q = probe_bytes(sel, &sym, &mut buf);
+                    let e = ceiling(rank(q), n);
+                    (c.move_on_key_greater_than_or_equal_to(q), e)
+                }
+                Op::Le(sel) => {
+                    let q = probe_bytes(sel, &sym, &mut buf);
+                    let e = floor(rank(q), n);
+                    (c.move_on_key_lower_than_or_equal_to(q), e)
+                }
+                _ => (Ok(None), None),
+            };
+            match res {
+                Ok(r) => {
+                    assert!(t().faulted == before, "C12: the source failed during the call but the call reported success");
+                    let got = eidx_plain(r, n);
+                    assert!(got == expect, "result changed although no fault happened yet");
+                    m.pos = expect;
+                    if expect.is_none() {
+                        failed = true; // relative moves after None are unspecified: stop the schema here
+                    }
+                }
+                Err(e) => {
+                    assert!(t().faulted && !before, "C12: an error was reported although no component failed");
+                    match &e {
+                        Error::Io(ioe) => {
+                            let k = match kind {
+                                0 => io::ErrorKind::Other,
+                                1 => io::ErrorKind::UnexpectedEof,
+                                2 => io::ErrorKind::PermissionDenied,
+                                _ => io::ErrorKind::BrokenPipe,
+                            };
+                            assert!(ioe.kind() == k, "C12: the I/O error does not carry the source's failure");
+                        }
+                        _ => panic!("C12: a source failure must surface as an I/O error"),
+                    }
+                    mem::forget(e);
+                    failed = true;
+                }
+            }
+        }
+        i += 1;
+    }
+    let io_calls = t().io_calls;
+    let f = t().faulted;
+    mem::forget(c);
+    (f, io_calls)
+}
+
 // ------------------------------------------------------------------------------------------------ S-form
 // Symbolic pre-states built directly from a few symbolic integers (no path merging), so that ONE operation
 // from EVERY state satisfying the representation invariant is one solver query. Histories of any length
